@@ -400,11 +400,32 @@ class FuncFacts:
         v = v.strip()
         if v in self._prov:
             return self._prov[v]
-        if depth > 200:
+        if depth > 400:
             raise Unresolved("provenance recursion too deep at " + v)
-        self._prov[v] = Prov(("unknown", "cycle:" + v), None)  # cycle guard (phi loops)
-        r = self._prov_uncached(v, depth)
-        self._prov[v] = r
+        if not hasattr(self, "_order"):
+            self._order = []      # active frames (values being resolved), outermost first
+            self._low = []        # per frame: lowest stack position of a cycle head consulted during its lifetime
+        if v in self._order:
+            i = self._order.index(v)              # back edge of a pointer cycle (phi / memory slot)
+            for j in range(i + 1, len(self._order)):
+                if self._low[j] > i:
+                    self._low[j] = i
+            return Prov(("unknown", "cycle:" + v), None)
+        pos = len(self._order)
+        self._order.append(v)
+        self._low.append(pos)
+        try:
+            r = self._prov_uncached(v, depth)
+        finally:
+            low = self._low.pop()
+            self._order.pop()
+        if low >= pos:
+            self._prov[v] = r                      # cache only results that did not depend on an unresolved outer cycle head
+        else:
+            # propagate the taint to the enclosing frames
+            for j in range(low + 1, len(self._order)):
+                if self._low[j] > low:
+                    self._low[j] = low
         return r
 
     def _prov_uncached(self, v, depth):
@@ -442,6 +463,9 @@ class FuncFacts:
                     srcs = [sv for (an, ao, sv) in self._alloca_ptr_stores() if an == p.root[1] and ao == p.off]
                     if srcs:
                         ps = [self.prov(sv, depth + 1) for sv in srcs]
+                        ps = [q for q in ps if not (q.root[0] == "unknown" and str(q.root[1]).startswith("cycle:"))]
+                        ps = [q for q in ps if q.root != ("null",)] or ps
+                    if srcs and ps:
                         roots = {q.root for q in ps}
                         if len(roots) == 1:
                             offs = {q.off for q in ps}
